@@ -196,7 +196,7 @@ def specs(w):
     shapes = gen.dag_shapes(1) + gen.dag_shapes(2) + gen.dag_shapes(3)
     shapes4 = gen.dag_shapes(4)
     idx = 0
-    for rnd in range(8 if thorough else 1):
+    for rnd in range(30 if thorough else 3):
         for _ in range(2):
             idx += 1
             if idx % w.nshards == w.shard:
